@@ -179,6 +179,48 @@ Theorem model_satisfies_pair_law : forall same s1 s2 c,
 Proof. exact model_pair_law. Qed.
 Print Assumptions model_satisfies_pair_law.
 
+(* RUN-TIME MEANING.  On every heap of objects (traits with names, metadata values None / falsy / truthy, possibly
+   holding another object), from every object: walking the compiled graphs as observe() does (hook_graph: handler on
+   the observables of a notifying node, children on the objects they hold; a missing required trait is an error)
+   attaches the handler to exactly the (object, trait) pairs - and raises exactly for the missing traits - that the
+   documented meaning names (doc_hooks: a name = that trait, "+name" = every trait whose metadata value is not None,
+   "*" = every trait, notify iff last or followed by "."). *)
+Theorem hooks_meaning : forall t gs, compile_tree t = Graphs gs ->
+  forall h o x, In x (flat_map (hook_graph h o) gs) <-> In x (doc_hooks h o t).
+Proof. exact hooks_meaning_lemma. Qed.
+Print Assumptions hooks_meaning.
+
+Theorem metadata_pattern_hooks_iff_value_not_none : forall w ob t,
+  In t (fst (m_obs (MMeta w) 0%nat ob)) <-> In t ob /\ meta_of (t_meta t) w <> MVNone.
+Proof. exact metadata_hooks_iff_not_none. Qed.
+Print Assumptions metadata_pattern_hooks_iff_value_not_none.
+
+(* the end-to-end hook law (clauses 16, 17) evaluated on the model's own walk over the probe heap holds for every
+   text the model compiles: what is checked on the implementation is proved of the model *)
+Theorem model_satisfies_hook_law : forall s gs, compile_str s = Graphs gs ->
+  let hits := flat_map (hook_graph probe_heap 0%nat) gs in
+  law_hook s (negb (has_err hits)) (hit_codes hits) = [].
+Proof. exact model_hook_law. Qed.
+Print Assumptions model_satisfies_hook_law.
+
+(* the spelling rewrites are statements about ALL texts, in both languages: brackets around any text of the documented
+   language (around any "*"-free text of the parser's language) and whitespace at token boundaries change neither
+   membership nor tree nor compiled graphs *)
+Theorem brackets_irrelevant_for_texts :
+  (forall s t, parse s = Some t -> has_any t = false -> compile_str (CLbr :: s ++ [CRbr]) = compile_str s) /\
+  (forall s ts t, doc_parse s = Some (ts, t) -> doc_parse (CLbr :: s ++ [CRbr]) = Some (LBR :: ts ++ [RBR], t)).
+Proof. split; [exact brackets_text|exact doc_brackets_text]. Qed.
+Print Assumptions brackets_irrelevant_for_texts.
+
+Theorem documented_language_closed_under_whitespace :
+  (forall pre x r, is_symb x = true -> doc_parse (pre ++ CWs :: x :: r) = doc_parse (pre ++ x :: r)) /\
+  (forall pre x r, is_symb x = true -> doc_parse (pre ++ x :: CWs :: r) = doc_parse (pre ++ x :: r)) /\
+  (forall pre r, doc_parse (pre ++ CWs :: CWs :: r) = doc_parse (pre ++ CWs :: r)) /\
+  (forall s, doc_parse (CWs :: s) = doc_parse s) /\
+  (forall s, doc_parse (s ++ [CWs]) = doc_parse s).
+Proof. exact whitespace_doc_lemma. Qed.
+Print Assumptions documented_language_closed_under_whitespace.
+
 (* Non-vacuity: "a:[b, items.c].*" is accepted; 5 paths; notify false on a, true elsewhere. *)
 Example accepted_nontrivial :
   let s := [CStart 97; CColonC; CLbr; CStart 98; CCommaC; CWs; CStart 105; CStart 116; CStart 101; CStart 109;
@@ -199,3 +241,19 @@ Example spellings_nontrivial :
   /\ compile_str [a; CDotC; CLbr; c; CCommaC; b; CRbr] <> compile_str [a; CDotC; CLbr; b; CCommaC; c; CRbr]
   /\ outcome_same (compile_str [a; CDotC; CLbr; b; CCommaC; d; CRbr]) (compile_str [a; CDotC; CLbr; b; CCommaC; c; CRbr]) = false.
 Proof. vm_compute. repeat split; try reflexivity. discriminate. Qed.
+
+(* Non-vacuity for hooks_meaning, on the probe heap of the correspondence (root with child; metadata tag = True, False,
+   0, "", (), None, absent): "+tag" hooks the five traits whose tag is not None on the root (codes 0..4), "child:+tag"
+   the same five on the child without hooking child itself, "child.*" hooks child and all eight traits of the child,
+   "nope" raises. *)
+Open Scope Z_scope.
+Example hooks_nontrivial :
+  let txt l := map (fun c => of_code c false) l in
+  let run s := match compile_str s with Graphs gs => flat_map (hook_graph probe_heap 0%nat) gs | _ => [] end in
+  hit_codes (run (txt [43; 116; 97; 103])) = [0; 1; 2; 3; 4]
+  /\ hit_codes (run (txt [99; 104; 105; 108; 100; 58; 43; 116; 97; 103])) = [16; 17; 18; 19; 20]
+  /\ hit_codes (run (txt [99; 104; 105; 108; 100; 46; 42])) = [8; 16; 17; 18; 19; 20; 21; 22; 23]
+  /\ has_err (run (txt [110; 111; 112; 101])) = true
+  /\ has_err (run (txt [43; 116; 97; 103])) = false.
+Proof. vm_compute. repeat split. Qed.
+
